@@ -369,4 +369,32 @@ theorem Reachable.inv3 {cfg : Cfg} {s : State} (h : Reachable cfg s) : Inv3 cfg 
     · have e0 := Eff.recycle (cfg := cfg) (s := s0) i ts
       exact (ih.eff hr.inv12.1 e0).eff (hr.inv12.1.eff e0) e
 
+/-- executing a list of actions (used by the non-vacuity examples) -/
+def run (cfg : Cfg) : State → List Action → Option State
+  | s, [] => some s
+  | s, a :: as => (step cfg s a).bind (fun s' => run cfg s' as)
+
+theorem reachable_run {cfg : Cfg} : ∀ {s s' : State} (as : List Action), Reachable cfg s → run cfg s as = some s' →
+    Reachable cfg s'
+  | s, s', [], hr, h => by simp only [run] at h; cases h; exact hr
+  | s, s', a :: as, hr, h => by
+    simp only [run] at h
+    cases hs : step cfg s a with
+    | none => rw [hs] at h; cases h
+    | some s1 => rw [hs] at h; exact reachable_run as (Reachable.step a hr hs) h
+
+/-! ## a concrete configuration for the non-vacuity examples of Props/C17 -/
+
+def cfg0 : Cfg := { slotOf := fun _ => 0, listCount := 5, expireMs := 120000, shift := 18 }
+def k1 : Key := [1]
+def k2 : Key := [2]
+
+theorem sort1 (k : Key) : sortKeys [k] = [k] := by simp [sortKeys]
+
+macro "latch_eval" : tactic =>
+  `(tactic| simp [run, step, genLock, sort1, acquireStep, acquireSlot, preRecycle, acquireCore, unlock, releaseSlot,
+      Latch.init, emptySlot, upd, cfg0, findNode, updNode, awaits, phaseAfterSuccess, k1, k2, Lock.fullyAcquired,
+      nodeOf, Lock.nextKey, HasHolder])
+
+
 end CGV.Latch
